@@ -162,7 +162,12 @@ func runDrive(cfg Config, in io.Reader, extra string, workers int) int {
 			continue
 		}
 		w := &driveWorld{sy: sy, rng: rand.New(rand.NewSource(int64(cfg.Seed)*100003 + int64(h))), out: enc, h: h, live: map[int]bool{}, held: map[int]bool{}}
-		w.run(maxN, blocks)
+		if optVal(extra, "big", "") == "1" {
+			w.lcBroken = true // no light client in the large histories
+			w.runBig(maxN)
+		} else {
+			w.run(maxN, blocks)
+		}
 		sum.Lines++
 		sum.Nontrivial++
 		sum.Distinct++
